@@ -297,8 +297,8 @@ func c12Real(w *W) {
 	a, b := w.Sock("pair"), w.Sock("pair")
 	defer a.Close()
 	defer b.Close()
-	mustSet(w, a, mangos.OptionRecvDeadline, 5*time.Second)
-	mustSet(w, b, mangos.OptionRecvDeadline, 5*time.Second)
+	mustSet(w, a, mangos.OptionRecvDeadline, 20*time.Second)
+	mustSet(w, b, mangos.OptionRecvDeadline, 20*time.Second)
 	needTLS := tran == "tls+tcp" || tran == "wss"
 	url := tran + "://" + loopIP + ":0"
 	sockPath := ""
